@@ -365,6 +365,9 @@ func genChains(h *harn) {
 		// a list element that is not a string: refused by extractConditions
 		h.proc("malformed-config", 3, nil, "or", false, []cond{{path: []string{"a"}, vals: []string{"x"}, nums: []int64{5}}}, evs)
 		h.proc("malformed-config", 3, nil, "and", true, []cond{{path: []string{"a"}, vals: []string{"x"}}, {path: []string{"b"}, nums: []int64{0}}}, evs)
+		// (the lone number of the second condition above is written as a scalar, exec.go; here as a list of one number)
+		h.proc("malformed-config", 3, nil, "and", false, []cond{{path: []string{"b"}, nums: []int64{0}}, {path: []string{"a"}, vals: []string{"x"}}}, evs)
+		h.proc("malformed-config", 3, nil, "or", false, []cond{{path: []string{"a"}, vals: []string{"x"}}, {path: []string{"b"}, nums: []int64{500}}}, evs)
 		for _, which := range []int{2, 3} {
 			// a single value: written as a scalar for the second condition (exec.go), as a list for the first
 			h.proc("config-spelling", which, nil, "and", false, []cond{{path: []string{"a"}, vals: []string{"x"}}, {path: []string{"b"}, vals: []string{"("}}}, evs)
@@ -373,9 +376,9 @@ func genChains(h *harn) {
 	}
 	// a match_fields value that is neither a string nor a list of strings (YAML `code: 500`, `flag: true`, `pod:`): the
 	// documented forms are a string, a /regexp/ and a list of strings, so the configuration must be refused — as it is for
-	// a number INSIDE a list. The reader drops the condition instead and the action applies to every event. Emitted only
-	// once the finding is listed.
-	if knownListed(nonStringFinding) {
+	// a number INSIDE a list (the unrepaired reader dropped the condition instead and the action applied to every event:
+	// repaired defect C14-match-fields-non-string, /repo fix 4c267b0).
+	{
 		evs := []hx.Sx{jObj(jKV("code", jNum("500"))), jObj(jKV("code", jNum("200"))), jObj(jKV("level", jStr("error")))}
 		for _, v := range []string{"500", "true", "null", `{"a":"b"}`, "1.5"} {
 			for _, script := range [][]int{{0}, {2}} {
